@@ -557,7 +557,8 @@ class GIRParser(object):
                     element_type = ast.TYPE_ANY
                 return ast.List(name, element_type, ctype=ctype)
             elif name == 'GLib.HashTable':
-                subchildren = self._find_children(typenode, _corens('type'))
+                names = list(map(_corens, ('callback', 'array', 'varargs', 'type')))
+                subchildren = [child for child in typenode if child.tag in names]
                 subchildren_types = list(map(self._parse_type_simple, subchildren))
                 while len(subchildren_types) < 2:
                     subchildren_types.append(ast.TYPE_ANY)
